@@ -37,7 +37,7 @@ _lock = threading.Lock()
 class Query:
     def __init__(self, name, harness, entry, defs=None, mode='F', bounds=None, default_unwind=2,
                  backend='sat', timeout=300, mem_gb=12, stubs=None, kf_only=None, kf_excl=(),
-                 cflags=(), extra_cbmc=(), note='', replay='direct', leak=False, functions=(), rec_bounds=None, default_rec=2, ptrovf=False, vacuous_ok=False, self_stubs=None):
+                 cflags=(), extra_cbmc=(), note='', replay='direct', leak=False, functions=(), rec_bounds=None, default_rec=2, ptrovf=False, vacuous_ok=False, self_stubs=None, stubs_optional=False):
         self.name = name; self.harness = harness; self.entry = entry
         self.defs = dict(defs or {}); self.mode = mode
         self.bounds = dict(bounds or {})        # regex over "<SourceFunction>" or "<cfunc>" -> unwind bound
@@ -49,6 +49,7 @@ class Query:
         self.note = note; self.replay = replay; self.leak = leak
         self.functions = tuple(functions)
         self.rec_bounds = dict(rec_bounds or {}); self.default_rec = default_rec
+        self.stubs_optional = stubs_optional   # a stub target that does not occur in the module is ignored instead of making the query undecided
         self.self_stubs = dict(self_stubs or {})   # {mangled F: c_fn}: direct calls to F inside F's own body go to c_fn
         self.vacuous_ok = vacuous_ok   # steering twins: an unreachable witness means "no such counterexample exists" and counts as proved
         self.ptrovf = ptrovf   # --pointer-overflow-check: off by default (optimiser-hoisted GEPs and NULL+0 give false alarms that mask later properties)
@@ -119,7 +120,7 @@ def compile_ir(work, q, defs):
         return key, ent
 
 
-def translate(work, key, ent, stubs, self_stubs=None):
+def translate(work, key, ent, stubs, self_stubs=None, stubs_optional=False):
     self_stubs = self_stubs or {}
     skey = hashlib.sha1(repr((sorted(stubs.items()), sorted(self_stubs.items()))).encode()).hexdigest()[:8]
     with ent['lock']:
@@ -128,7 +129,7 @@ def translate(work, key, ent, stubs, self_stubs=None):
         cfile = os.path.join(work.dir, '%s_%s.c' % (key, skey))
         loops = []; recs = []
         try:
-            text = ll2c.translate(open(ent['ll']).read(), {'stubs': stubs, 'self_stubs': self_stubs, 'loops_out': loops, 'rec_out': recs})
+            text = ll2c.translate(open(ent['ll']).read(), {'stubs': stubs, 'self_stubs': self_stubs, 'stubs_optional': stubs_optional, 'loops_out': loops, 'rec_out': recs})
         except Exception as e:  # translator cannot handle the IR: undecided, never pass/fail
             ent[tk] = (None, None, 'll2c: %s: %s' % (type(e).__name__, e))
             return ent[tk]
@@ -351,7 +352,7 @@ def run_query(work, q, kf_open, seed=0, do_selfcheck=True):
         return r
     key, ent = compile_ir(work, q, defs)
     if 'err' in ent: return done('UNDECIDED', ent['err'][-1500:])
-    cfile, loops, err = translate(work, key, ent, q.stubs, q.self_stubs)
+    cfile, loops, err = translate(work, key, ent, q.stubs, q.self_stubs, q.stubs_optional)
     if err: return done('UNDECIDED', err)
     skey = hashlib.sha1(repr((sorted(q.stubs.items()), sorted(q.self_stubs.items()))).encode()).hexdigest()[:8]
     items, ldesc = unwindset(work, cfile, q.entry, loops, q, ent.get('rec_' + skey), ())
